@@ -138,6 +138,18 @@ def plan_for_source(kind, src, tier, rnd, idx):
         hide = rnd.sample(pool, min(k, len(pool)))
         fl, fi = (0, NOFILT) if rnd.random() < 0.6 else (gen_flags(rnd), gen_filters(rnd))
         cases.append(Case(cid(), kind, src, fl, fi, rnd.choice(["r", "r", "", "rx", "rd"]), hide, cls="fault-random"))
+    # class-directed single removals: sysfs files are grouped by their path with digits normalised (node<N>/cpumap,
+    # cpu<N>/topology/core_id, ...); rare classes (a handful of NUMA node files among thousands of per-CPU files) get the same
+    # chance as frequent ones
+    import re as _re
+    classes = {}
+    for p_ in (sysrem or rem):
+        classes.setdefault(_re.sub(r"\d+", "N", p_), []).append(p_)
+    ckeys = sorted(classes)
+    nclass = (6 if kind == "L" else 2) if tier == "quick" else 0
+    for _ in range(min(nclass, len(ckeys))):
+        cl = classes[rnd.choice(ckeys)]
+        cases.append(Case(cid(), kind, src, 0, NOFILT, "", [rnd.choice(cl)], cls="fault-class"))
     if tier == "thorough" and kind != "X" and len(rem) <= 800 and sysrem:
         # small snapshots: every single removal under sys/devices/system, and pairs (all when few, else sampled)
         for p in sysrem:
